@@ -116,6 +116,9 @@ class TravBase(Check):
         # worlds reached by arbitrary histories (members removed again, ends reassigned, …)
         for _ in range(150 if quick else 6000):
             yield self.history_world(real, rng, quick)
+        # large worlds (depth / size thresholds)
+        for _ in range(1 if quick else 4):
+            yield from self.big_worlds(real, rng, quick)
         # random larger multigraphs
         for _ in range(150 if quick else 4000):
             nv = rng.randint(2, 7)
@@ -129,6 +132,50 @@ class TravBase(Check):
                     b = None
                 links.append((k, a, b))
             yield self.one(real, rng, nv, links, full=False, sample=60)
+
+    def big_worlds(self, real, rng, quick):
+        """sizes at which 'optimised' code paths switch: a path far deeper than 200 levels with branching and
+        an out-of-universe vertex hanging below that depth; a dense graph whose pending stack of the iterative
+        DFS passes several thousand entries"""
+        # --- deep chain with gadgets ---
+        n = 215 + rng.randint(0, 60)
+        lines = ["reset"] + ["vertex V"] * n
+        for i in range(n - 1):
+            lines.append("edge D V%d V%d" % (i, i + 1))
+        x = n - 1
+        p_, q_, r_, y_, z_ = n, n + 1, n + 2, n + 3, n + 4
+        lines += ["vertex V", "vertex V", "vertex V a=0:1", "vertex V", "vertex V a=0:1"]
+        for a, b in [(x, p_), (x, q_), (p_, q_), (p_, r_)]:
+            lines.append("edge %s V%d V%d" % (rng.choice(["D", "D", "U"]), a, b))
+        hang = rng.randint(205, n - 2)
+        lines += ["edge D V%d V%d" % (hang, y_), "edge D V%d V%d" % (y_, z_)]
+        total = n + 5
+        lines.append("universe m=%s" % ",".join("V%d" % i for i in range(total) if i != y_))
+        u = total
+        qs = []
+        kinds = ("bfs", "dfsr", "dfsi") if self.searches else ("bft", "dftr", "dfti")
+        for uni in ("V%d" % u, "-"):
+            for t in kinds:
+                if self.searches:
+                    qs += ["%s %s V0 0 1" % (t, uni), "%s %s V%d 0 1" % (t, uni, hang - 3)]
+                else:
+                    qs += ["%s %s V0 0 1 - - list" % (t, uni), "%s %s V%d 1 1 - - gen" % (t, uni, hang - 3)]
+        yield run_script(real, lines + qs)
+        if self.searches:
+            return
+        # --- dense graph ---
+        nv, deg = (130, 60) if quick else (170, 80)
+        lines = ["reset"] + ["vertex V"] * nv
+        for i in range(nv):
+            outs = list(range(nv))
+            rng.shuffle(outs)
+            for j in outs[:deg]:
+                lines.append("edge %s V%d V%d" % ("D" if rng.random() < 0.8 else "U", i, j))
+        lines.append("universe m=%s" % ",".join("V%d" % i for i in range(nv) if i % 17 != 3))
+        qs = []
+        for t in kinds:
+            qs += ["%s - V0 0 1 - - list" % t, "%s V%d V1 0 1 - - list" % (t, nv)]
+        yield run_script(real, lines + qs)
 
     def history_world(self, real, rng, quick):
         """a world reached by an arbitrary history of structure / membership / law operations
